@@ -1237,9 +1237,13 @@ theorem locate_ses_eq (cfg : Cfg) (hn : cfg.locNegEnd = false) (hc : cfg.locStar
   · simp [h0]
   · have hst : (if s.getD 0 < 0 then if (n : Int) + s.getD 0 < 0 then 0 else (n : Int) + s.getD 0 else s.getD 0) = nStart n s := rfl
     simp only [h0, ↓reduceIte, hst]
+    have hs0 := nStart_nonneg n s
     by_cases hle : (n : Int) ≤ nStart n s
-    · simp [hle]
-    · simp only [hle, ↓reduceIte]
+    · by_cases hemp : (!cfg.locEmptyArray && decide (n = 0)) = true <;> simp [hle, hemp]
+    · have hemp : (!cfg.locEmptyArray && decide (n = 0)) = false := by
+        have : n ≠ 0 := by omega
+        simp [this]
+      simp only [hle, hemp, Bool.false_eq_true, ↓reduceIte]
       have h1 : (if (if s.getD 0 < 0 then (n : Int) + s.getD 0 else if (n : Int) ≤ s.getD 0 then (n : Int) - 1 else s.getD 0) < 0 then 0
           else if s.getD 0 < 0 then (n : Int) + s.getD 0 else if (n : Int) ≤ s.getD 0 then (n : Int) - 1 else s.getD 0) = nStart n s := by
         unfold nStart at hle ⊢
